@@ -295,8 +295,8 @@ void OrderedSimplex::fireParameterChanged(const ParameterList& pl)
 
 void OrderedSimplex::setFrequencies(const std::vector<double>& vValues)
 {
-  vValues_ = vValues;
-
+  // vValues_ is recomputed from the parameters when they change; it is not touched here, so that a
+  // vector refused below leaves the object as it was.
   auto dim = vValues.size();
   Vdouble vprob(dim);
 
